@@ -7,6 +7,7 @@ CONSTANTS
  DevSplitAll = FALSE
  DevTmplMerge = FALSE
  DevSkipUserUnknown = FALSE
+ DevIdReuse = FALSE
 INVARIANT StoreIsDeclarative
 INVARIANT ErrorRule
 INVARIANT CountsFiles
